@@ -356,6 +356,7 @@ pub proof fn lemma_pre_match_take(l: Seq<char>, p: Seq<char>, ci: bool, k: int)
     }
 }
 
+#[verifier::opaque]
 pub open spec fn mdo_viable(a: AbsTok, l: Seq<char>) -> bool {
     (l.len() < 2 && pre_match(l, pat_dashdash(), false)) || (l.len() < 7 && pre_match(l, pat_doctype(), true))
     || (sink_cdata_ok(a.out) && l.len() < 7 && pre_match(l, pat_cdata(), false))
@@ -397,6 +398,7 @@ pub proof fn lemma_mdo_feed(a: AbsTok, p: Seq<char>)
     ensures run(a, p) == (AbsTok { temp: a.temp + p, ..a }),
     decreases p.len(),
 {
+    reveal(mdo_viable); reveal(adn_viable);
     reveal_with_fuel(run, 2);
     lemma_pats();
     if p.len() == 0 {
@@ -434,6 +436,7 @@ pub proof fn lemma_mdo_hit(a: AbsTok, p: Seq<char>)
         mdo_viable(a, a.temp), mdo_hit(a, a.temp + p),
     ensures run(a, p) == mdo_target(a, a.temp + p),
 {
+    reveal(mdo_viable); reveal(adn_viable);
     lemma_pats();
     let n = a.temp + p;
     let q = p.drop_last();
@@ -495,6 +498,7 @@ pub proof fn lemma_mdo_miss(a: AbsTok, p: Seq<char>)
     ensures run(a, p) == run(bogus_init(a), a.temp + p),
     decreases p.len(),
 {
+    reveal(mdo_viable); reveal(adn_viable);
     lemma_pats();
     let n = a.temp + p;
     if p.len() == 0 {
@@ -544,6 +548,7 @@ pub proof fn lemma_mdo_miss(a: AbsTok, p: Seq<char>)
 }
 
 // ---- after DOCTYPE name ----
+#[verifier::opaque]
 pub open spec fn adn_viable(l: Seq<char>) -> bool {
     l.len() < 6 && (pre_match(l, pat_public(), true) || pre_match(l, pat_system(), true))
 }
@@ -559,6 +564,7 @@ pub proof fn lemma_adn_feed(a: AbsTok, p: Seq<char>)
     ensures run(a, p) == (AbsTok { temp: a.temp + p, ..a }),
     decreases p.len(),
 {
+    reveal(mdo_viable); reveal(adn_viable);
     reveal_with_fuel(run, 2);
     lemma_pats();
     if p.len() == 0 {
@@ -593,6 +599,7 @@ pub proof fn lemma_adn_hit(a: AbsTok, p: Seq<char>)
         adn_viable(a.temp), adn_hit(a.temp + p),
     ensures run(a, p) == adn_target(a, a.temp + p),
 {
+    reveal(mdo_viable); reveal(adn_viable);
     lemma_pats();
     let n = a.temp + p;
     let q = p.drop_last();
@@ -648,6 +655,7 @@ pub proof fn lemma_adn_miss(a: AbsTok, p: Seq<char>)
     ensures run(a, p) == run(bogusdt_init(a), a.temp + p),
     decreases p.len(),
 {
+    reveal(mdo_viable); reveal(adn_viable);
     lemma_pats();
     let n = a.temp + p;
     if p.len() == 0 {
@@ -698,6 +706,7 @@ pub proof fn lemma_unlook(a: AbsTok, p: Seq<char>)
         (a.state == State::MarkupDeclarationOpen && mdo_viable(a, a.temp)) || (a.state == State::AfterDoctypeName && adn_viable(a.temp)),
     ensures run(a, p) == run(clear_temp(a), a.temp + p),
 {
+    reveal(mdo_viable); reveal(adn_viable);
     let b = clear_temp(a);
     assert(b.temp + a.temp =~= a.temp);
     if a.state == State::MarkupDeclarationOpen { lemma_mdo_feed(b, a.temp); } else { lemma_adn_feed(b, a.temp); }
@@ -872,6 +881,7 @@ pub proof fn lemma_viable_no_crlf(a: AbsTok)
     requires look_viable(a),
     ensures no_crlf(a.temp),
 {
+    reveal(mdo_viable); reveal(adn_viable);
     lemma_pats();
     let l = a.temp;
     if a.state == State::MarkupDeclarationOpen {
@@ -902,6 +912,7 @@ pub proof fn lemma_eat_post<F: Fn(&u8, &u8) -> bool>(a: AbsTok, ig0: bool, v0: S
         &&& (r0 is None ==> m_none(n, pat@, ci) && v2 == n)
     }),
 {
+    reveal(mdo_viable); reveal(adn_viable);
     let n = a.temp + norm(ig0, v0);
     let v2 = a.temp + v1;
     reveal_with_fuel(norm, 2);
@@ -937,6 +948,7 @@ pub proof fn lemma_mdo_true(a: AbsTok, p: Seq<char>, pat: Seq<char>, ci: bool)
     requires look_viable(a), a.state == State::MarkupDeclarationOpen, mdo_pat(a, pat, ci), m_true(a.temp + p, pat, ci),
     ensures run(a, p) == run(mdo_target(a, (a.temp + p).take(pat.len() as int)), (a.temp + p).skip(pat.len() as int)),
 {
+    reveal(mdo_viable); reveal(adn_viable);
     lemma_pats();
     let n = a.temp + p;
     let m = pat.len() as int;
@@ -975,6 +987,7 @@ pub proof fn lemma_mdo_eof(a: AbsTok, p: Seq<char>)
     requires look_viable(a), a.state == State::MarkupDeclarationOpen, mdo_viable(a, a.temp + p),
     ensures eof_close(run(a, p)) == eof_close(run(bogus_init(a), a.temp + p)),
 {
+    reveal(mdo_viable); reveal(adn_viable);
     lemma_pats();
     let n = a.temp + p;
     lemma_mdo_feed(a, p);
@@ -1008,6 +1021,7 @@ pub proof fn lemma_adn_true(a: AbsTok, p: Seq<char>, pat: Seq<char>)
     requires look_viable(a), a.state == State::AfterDoctypeName, adn_pat(pat), m_true(a.temp + p, pat, true),
     ensures run(a, p) == run(adn_target(a, (a.temp + p).take(pat.len() as int)), (a.temp + p).skip(pat.len() as int)),
 {
+    reveal(mdo_viable); reveal(adn_viable);
     lemma_pats();
     let n = a.temp + p;
     let m = pat.len() as int;
@@ -1026,6 +1040,7 @@ pub proof fn lemma_adn_eof(a: AbsTok, p: Seq<char>)
     requires look_viable(a), a.state == State::AfterDoctypeName, adn_viable(a.temp + p), (a.temp + p).len() > 0,
     ensures eof_close(run(a, p)) == eof_close(run(bogusdt_init(a), a.temp + p)),
 {
+    reveal(mdo_viable); reveal(adn_viable);
     lemma_pats();
     let n = a.temp + p;
     lemma_adn_feed(a, p);
@@ -1076,6 +1091,7 @@ pub proof fn lemma_adn_else(a1: AbsTok, c: char, rest: Seq<char>, eof: bool)
         (if eof { eof_close(lhs) == eof_close(rhs) } else { lhs == rhs })
     }),
 {
+    reveal(mdo_viable); reveal(adn_viable);
     let n = seq![c] + rest;
     let b = bogusdt_init(a1);
     assert(a1.temp + n =~= n);
@@ -1090,4 +1106,54 @@ pub proof fn lemma_adn_else(a1: AbsTok, c: char, rest: Seq<char>, eof: bool)
     } else {
         lemma_adn_eof(a1, n);
     }
+}
+
+// ---- data state SIMD fast path: a run that may contain LF (counted in bulk) ----
+pub open spec fn count_lf(s: Seq<char>) -> int
+    decreases s.len()
+{
+    if s.len() == 0 { 0 } else { (if s[0] == '\n' { 1int } else { 0int }) + count_lf(s.drop_first()) }
+}
+pub open spec fn data_plain(c: char) -> bool { c != '<' && c != '&' && c != '\r' && c != '\0' }
+pub open spec fn all_data_plain(s: Seq<char>) -> bool { forall|i: int| 0 <= i < s.len() ==> data_plain(#[trigger] s[i]) }
+pub proof fn lemma_norm_nocr(s: Seq<char>, rest: Seq<char>)
+    requires forall|i: int| 0 <= i < s.len() ==> #[trigger] s[i] != '\r',
+    ensures norm(false, s + rest) == s + norm(false, rest),
+    decreases s.len(),
+{
+    reveal_with_fuel(norm, 2);
+    if s.len() == 0 {
+        assert(s + rest =~= rest);
+        assert(s + norm(false, rest) =~= norm(false, rest));
+    } else {
+        assert((s + rest).drop_first() =~= s.drop_first() + rest);
+        assert(s[0] != '\r');
+        assert forall|i: int| 0 <= i < s.drop_first().len() implies #[trigger] s.drop_first()[i] != '\r' by { assert(s.drop_first()[i] == s[i + 1]); }
+        lemma_norm_nocr(s.drop_first(), rest);
+        assert(seq![s[0]] + (s.drop_first() + norm(false, rest)) =~= s + norm(false, rest));
+    }
+}
+pub proof fn lemma_run_data_lf(a: AbsTok, x: Seq<char>)
+    requires a.state == State::Data, a.cr is None, !a.recons, all_data_plain(x),
+    ensures run(a, x) == (AbsTok { line: a.line + count_lf(x), ..emit_seq(a, x) }),
+    decreases x.len(),
+{
+    reveal_with_fuel(run, 2);
+    reveal(spec_step); reveal(s_simple); reveal(s_data);
+    if x.len() == 0 {
+        assert(a.out + chars_out(x) =~= a.out);
+    } else {
+        assert(data_plain(x[0]));
+        let a2 = emit_ch(pre_step(a, x[0]), x[0]);
+        assert(spec_step(a, x[0]) == a2);
+        assert forall|i: int| 0 <= i < x.drop_first().len() implies data_plain(#[trigger] x.drop_first()[i]) by { assert(x.drop_first()[i] == x[i + 1]); }
+        lemma_run_data_lf(a2, x.drop_first());
+        assert(a.out.push(Out { tok: OutTok::Char(x[0]), line: 0 }) + chars_out(x.drop_first()) =~= a.out + chars_out(x));
+    }
+}
+
+pub proof fn lemma_viable_empty(a: AbsTok)
+    ensures mdo_viable(a, Seq::<char>::empty()), adn_viable(Seq::<char>::empty()),
+{
+    reveal(mdo_viable); reveal(adn_viable);
 }
